@@ -1870,6 +1870,13 @@ class FunctionBody:
             if name == 'min':
                 return '((%s < %s) ? %s : %s)' % (y, x, y, x)
             return '((%s < %s) ? %s : %s)' % (x, y, y, x)
+        if name == 'upper_bound' and len(a) == 3 and self.is_double(a[2]):
+            # std::upper_bound over a range of doubles (iterators are element pointers): index stub wb_upper_bound_idx
+            self.tr.shim_used.add('upper_bound')
+            b = self.expr(a[0])
+            return '(%s + wb_upper_bound_idx(%s, (size_t)(%s - %s), %s))' % (b, b, self.expr(a[1]), b, self.expr(a[2]))
+        if name == 'distance' and len(a) == 2:
+            return 'WB_PTRDIFF(%s, %s)' % (self.expr(a[1]), self.expr(a[0]))
         if name == 'move' and len(a) == 1:
             return self.expr(a[0])
         if name == 'to_string' and len(a) == 1:
@@ -2010,6 +2017,11 @@ class FunctionBody:
         if opname in ('operator->', 'operator*') and t0.kind == 'ptr':
             o = self.expr(args[0])
             return o if opname == 'operator->' else '(*%s)' % o
+        if opname in ('operator-', 'operator==', 'operator!=', 'operator<') and len(args) == 2 and t0.kind == 'ptr' and self.ct(args[1]).kind == 'ptr':
+            # iterators of std::vector/std::array are element pointers: difference / comparison of two iterators
+            if opname == 'operator-':
+                return 'WB_PTRDIFF(%s, %s)' % (self.expr(args[0]), self.expr(args[1]))
+            return '(%s %s %s)' % (self.expr(args[0]), opname[len('operator'):], self.expr(args[1]))
         if opname == 'operator=' and t0.kind in ('vector', 'array', 'record', 'thread', 'ptr'):
             s = '%s = %s' % (self.expr(args[0]), self.expr(args[1]))
             return s if stmt else '(' + s + ')'
